@@ -481,9 +481,8 @@ Definition ev_ok (R : list rrel) (e : ev) : Prop :=
   match e with
   | EvPlain pos n => forall r, In r R -> site_disjoint r pos n
   | EvRel pos w v =>
-      (forall r, In r R -> rr_pos r = pos -> rr_w r = w) /\
-      (forall r, In r R -> rr_pos r <> pos -> site_disjoint r pos w) /\
-      relocate R pos v < 2 ^ (8 * w)
+      (forall r, In r R -> rr_pos r = pos -> rr_w r = w /\ rrel_value r v < 2 ^ (8 * w)) /\
+      (forall r, In r R -> rr_pos r <> pos -> site_disjoint r pos w)
   end.
 Definition trace_ok (R : list rrel) (t : list ev) : Prop := Forall (ev_ok R) t.
 
@@ -494,8 +493,8 @@ Definition ev_okb (R : list rrel) (e : ev) : bool :=
   match e with
   | EvPlain pos n => forallb (fun r => site_disjointb r pos n) R
   | EvRel pos w v =>
-      forallb (fun r => if rr_pos r =? pos then rr_w r =? w else site_disjointb r pos w) R &&
-      (relocate R pos v <? 2 ^ (8 * w))
+      forallb (fun r => if rr_pos r =? pos then (rr_w r =? w) && (rrel_value r v <? 2 ^ (8 * w))
+                        else site_disjointb r pos w) R
   end.
 Definition trace_okb (R : list rrel) (t : list ev) : bool := forallb (ev_okb R) t.
 
